@@ -6,7 +6,7 @@
 (* The device part is what the executable twin in harness/c10.py must do (a twin that departs from it  *)
 (* is rejected: the spec, not the Python, is normative); the contract part is the property.            *)
 (* Transports: "serial" (CRC-framed, ACK per frame) and "hid" (reports, no ACK, no integrity check).   *)
-EXTENDS MbootCmds, FiniteSets, TLC, Json, IOUtils
+EXTENDS MbootCli, FiniteSets, TLC, Json, IOUtils
 Traces == ndJsonDeserialize(IOEnv.TRACE_FILE)
 VARIABLES tid, l,
           call,      \* the API call in flight (record of the "call" event) or [op |-> "none"]
@@ -131,7 +131,7 @@ Result ==
   /\ (E.kind = "ret" /\ call.shape = "in" /\ E.val = "data" /\ ~(E.dataExact /\ E.dataLen = call.len) => E.status # 0)   \* partial data only with a failure status
   /\ (call.op = "load_image" /\ E.kind = "ret" /\ E.val = "ok" => E.devGotExact /\ E.devBytes = call.len)
   /\ (strict => ~Succ)                                                              \* StrictFaults: NAK / abort / truncated / missing frame end the call in failure
-  /\ LET exp == Cmds(call.op, call.args, call.dl, call.db) IN                        \* AsRequested: the device saw exactly the commands the operation stands for,
+  /\ LET exp == IF call.via = "cli" THEN CliCmds(call.cli) ELSE Cmds(call.op, call.args, call.dl, call.db) IN   \* a blhost command line means its operation (MbootCli)                        \* AsRequested: the device saw exactly the commands the operation stands for,
      IF faulted \/ dev = "dead" THEN IsPrefix(cmds, exp) ELSE cmds = exp             \*   with the parameters given (under a fault: no other command than those)
   /\ call' = [op |-> "none"] /\ UNCHANGED <<dev, cur, faulted, sentB, sentP, gotC, viol, done, cmds, strict>> /\ Adv
 Next == Call \/ HostCmd \/ HostData \/ HostRaw \/ HostAck \/ DevAck \/ DevResp0 \/ DevData \/ DevFinal \/ Result
